@@ -9,11 +9,9 @@ import (
 	"encoding/json"
 	"fmt"
 	"math/rand"
-	"strings"
 
 	"github.com/decred/dcrd/dcrec/secp256k1/v4"
 	"github.com/decred/dcrd/dcrec/secp256k1/v4/ecdsa"
-	"golang.org/x/crypto/sha3"
 
 	"github.com/icon-project/goloop/common"
 	"github.com/icon-project/goloop/common/crypto"
@@ -28,7 +26,6 @@ type keyT struct {
 	Addr []byte // 21 bytes, independently computed
 }
 
-func sha3sum(b []byte) []byte { h := sha3.Sum256(b); return h[:] }
 
 func newKey(r *rand.Rand) *keyT {
 	for {
@@ -201,36 +198,6 @@ func oracleVerify(text []byte, pku []byte, expect string) (res int, sigBytes, id
 		msg = "verifies although it must not"
 	}
 	return
-}
-
-// cb prints a byte string: short ones as a list literal, long ones as
-// (pw n (W8 w1 .. w8 (W8 .. WE)))%uint63 — see coq/run/Pack_Bytes.v
-func cb(b []byte) string {
-	if len(b) <= 8 {
-		return hxlib.CoqBytes(b)
-	}
-	var words []uint64
-	for i := 0; i < len(b); i += 7 {
-		j := i + 7
-		if j > len(b) {
-			j = len(b)
-		}
-		var w uint64
-		for _, x := range b[i:j] {
-			w = w<<8 | uint64(x)
-		}
-		words = append(words, w)
-	}
-	for len(words)%8 != 0 {
-		words = append(words, 0)
-	}
-	var sb strings.Builder
-	fmt.Fprintf(&sb, "(pw %d ", len(b))
-	for i := 0; i < len(words); i += 8 {
-		fmt.Fprintf(&sb, "(W8 %d %d %d %d %d %d %d %d ", words[i], words[i+1], words[i+2], words[i+3], words[i+4], words[i+5], words[i+6], words[i+7])
-	}
-	sb.WriteString("WE" + strings.Repeat(")", len(words)/8) + ")%uint63")
-	return sb.String()
 }
 
 func coqVerify(res int, sigBytes, id, from []byte) string {
@@ -410,6 +377,8 @@ func gen(c *hxlib.Ctx) {
 		m := baseTx(r, k.Addr)
 		emitVerify(c, "own-key", m, sign(k, idOf(m)), k.PKU, "ok")
 	}
+	// a'. raw-fallback transactions (id = JSON-map hash != struct hash)
+	genRaw(c, keys)
 	// b. foreign key, c. another id
 	for i := 0; i < c.N(60); i++ {
 		k, f := keys[i%len(keys)], keys[(i+1+r.Intn(len(keys)-1))%len(keys)]
@@ -556,6 +525,11 @@ func replay(raw json.RawMessage) string {
 		json.Unmarshal(raw, &in)
 		_, _, _, _, msg := oracleVerify(unhx(in.Text), unhx(in.PKU), in.Expect)
 		return msg
+	case "tx":
+		var in txIn
+		json.Unmarshal(raw, &in)
+		_, _, _, msg := oracleTx(unhx(in.Text), in.Expect)
+		return msg
 	case "sig":
 		var in sigIn
 		json.Unmarshal(raw, &in)
@@ -574,7 +548,7 @@ func replay(raw json.RawMessage) string {
 func main() {
 	hxlib.Main(hxlib.Spec{
 		ID: "C13",
-		Rule: "v3 transactions built as JSON with random fields; the id is taken from the implementation, signatures are made with real secp256k1 keys: own key over the own id (must verify), foreign key, own key over another id, sender differing from the signer's address in one bit of each of the 20 id bytes or in the type, every single-bit flip of r|s|v for sampled transactions, all 256 V values, 64-byte / missing / empty / odd-length signatures; each decision is also taken on the stored (binary) form; byte strings of lengths 0,1,63,64,65,66,130 through ParseSignature / ParseSignatureVRS and the three serialisers; addresses of random keys; sign -> recover for random keys and hashes of length 0..64; non-trivial = every verify case, 64/65-byte format cases, hashes of length 1..32; distinct = distinct input",
+		Rule: "v3 transactions built as JSON with random fields; the id is taken from the implementation, signatures are made with real secp256k1 keys: own key over the own id (must verify); raw-fallback transactions (leading-zero / upper-case hex, upper-case address, extra top-level field: id = JSON-map hash, not the struct hash) signed over their id (must verify, JSON and stored form) and over the struct hash = the canonical twin's id (must not), the id being recomputed by the harness and, in the model, by Model_TxSerialize.from_json; foreign key, own key over another id, sender differing from the signer's address in one bit of each of the 20 id bytes or in the type, every single-bit flip of r|s|v for sampled transactions, all 256 V values, 64-byte / missing / empty / odd-length signatures; each decision is also taken on the stored (binary) form; byte strings of lengths 0,1,63,64,65,66,130 through ParseSignature / ParseSignatureVRS and the three serialisers; addresses of random keys; sign -> recover for random keys and hashes of length 0..64; non-trivial = every verify case, 64/65-byte format cases, hashes of length 1..32; distinct = distinct input",
 		Preamble: "From Goloop Require Import lib.Bytes Model_Address Model_TxSerialize Model_TxVerify.\nFrom GoloopRun Require Import Run_C13.",
 		Shard:    400,
 		Gen:      gen, Replay: replay,
